@@ -263,6 +263,18 @@ func ruleValidatorSkip(c *Ctx, r *Report) {
 					r.OK(key, c.Pos(bs.Pos()), "schema-kind dispatch on a schema node: "+types.ExprString(is.Cond))
 					return true
 				}
+				// an unset field of the struct being validated (the library's own notion of unset,
+				// util.IsValueNilOrDefault of the i-th field) has nothing to validate: the guard
+				// form of `if !IsValueNilOrDefault(field) { … }`.
+				if is, ok := pm[blk].(*ast.IfStmt); ok && is.Body == blk && len(blk.List) == 1 {
+					if call, ok := ast.Unparen(is.Cond).(*ast.CallExpr); ok && FullName(Callee(info, call)) == P("util")+".IsValueNilOrDefault" && len(call.Args) == 1 {
+						arg := types.ExprString(call.Args[0])
+						if strings.Contains(arg, ".Field(") && strings.HasSuffix(arg, ".Interface()") {
+							r.OK(key, c.Pos(bs.Pos()), "unset struct field (util.IsValueNilOrDefault): nothing to validate")
+							return true
+						}
+					}
+				}
 			}
 			r.Bad(key, c.Pos(bs.Pos()), name+" skips the rest of a loop iteration without recording an error: the element/key/field it was checking is silently accepted")
 			return true
